@@ -266,9 +266,9 @@ func runC03(r *core.Run) {
 	r.Obs("max_scaled_linearity_or_roundtrip_error_per_space", worst)
 	r.Obs("lattice_side", n)
 	r.Exhaustive = false
-	p := c03Probe(libSpaces[0])
+	p := c03Probe(spaceByName("srgb"))
 	r.Sample(map[string]any{"space": "srgb", "probed_rgb_to_xyz": p.fwd})
-	r.Sample(map[string]any{"space": "prophotorgb", "in": []float32{-0.5, 1.5, 0.25}, "xyz": libSpaces[2].ToXYZ(linear.RGB{R: -0.5, G: 1.5, B: 0.25})})
+	r.Sample(map[string]any{"space": "prophotorgb", "in": []float32{-0.5, 1.5, 0.25}, "xyz": spaceByName("prophotorgb").ToXYZ(linear.RGB{R: -0.5, G: 1.5, B: 0.25})})
 }
 
 func replayC03(stage string, raw json.RawMessage) (bool, string, error) {
